@@ -67,6 +67,10 @@ func c15agent() {
 	salt := make([]byte, sets[1].SaltLen())
 	rng.Read(salt)
 	os.WriteFile(filepath.Join(base, "old.user"), []byte(sets[1].Record([]byte("old-pw"), salt, 1700000000)+"\ntotp: QUJD\n"), 0600) //nolint:errcheck
+	// residue of interrupted operations: names reserved by adds that were killed, files left in the work area
+	os.WriteFile(filepath.Join(base, "erin.user"), nil, 0600)                                     //nolint:errcheck
+	os.WriteFile(filepath.Join(base, "frank.admin"), nil, 0600)                                   //nolint:errcheck
+	os.WriteFile(filepath.Join(base, ".tmp", "alice.user.123456789"), []byte("leftover\n"), 0600) //nolint:errcheck
 	trace := filepath.Join(workDir(), "agent-trace")
 	os.WriteFile(filepath.Join(workDir(), "agent-base.txt"), []byte(base), 0600) //nolint:errcheck
 	agentWrap = []string{"strace", "-ff", "-y", "-s", "300", "-o", trace}
@@ -80,7 +84,7 @@ func c15agent() {
 	n := 0
 	rec := func(kind string) { n++; R.Case(fmt.Sprintf("%s/%d", kind, n), true); R.Count("requests:"+kind, 1) }
 	// SASL
-	for _, c := range [][2]string{{"alice", "alice-pw"}, {"alice", "wrong"}, {"old", "old-pw"}, {"old", "nope"}, {"ghost", "x"}, {"../x", "y"}, {"root", "root-pw"}, {strings.Repeat("u", 256), strings.Repeat("p", 256)}, {strings.Repeat("u", 300), "p"}} {
+	for _, c := range [][2]string{{"alice", "alice-pw"}, {"alice", "wrong"}, {"old", "old-pw"}, {"old", "nope"}, {"ghost", "x"}, {"../x", "y"}, {"root", "root-pw"}, {strings.Repeat("u", 256), strings.Repeat("p", 256)}, {strings.Repeat("u", 300), "p"}, {"erin", "x"}, {"frank", "y"}} {
 		agent.saslAuth(c[0], c[1])
 		rec("sasl")
 	}
@@ -95,7 +99,7 @@ func c15agent() {
 		rec("sasl-malformed")
 	}
 	// LDAP: bind, search, modify, add, delete, unbind
-	for _, c := range [][2]string{{"alice", "alice-pw"}, {"alice@example.org", "alice-pw"}, {"alice", "wrong"}, {"old", "old-pw"}, {"cn=root,dc=x", "root-pw"}} {
+	for _, c := range [][2]string{{"alice", "alice-pw"}, {"alice@example.org", "alice-pw"}, {"alice", "wrong"}, {"old", "old-pw"}, {"cn=root,dc=x", "root-pw"}, {"erin", "x"}, {"frank@example.org", "y"}} {
 		agent.ldapBind(c[0], c[1])
 		rec("ldap-bind")
 	}
@@ -120,6 +124,10 @@ func c15agent() {
 	agent.basicAuth("alice", "alice-pw")
 	agent.basicAuth("alice", "wrong")
 	agent.basicAuth("old", "old-pw")
+	agent.basicAuth("erin", "x")
+	agent.apiAuth("frank", "y", false)
+	rec("http-basic")
+	rec("http-api-authenticate")
 	rec("http-basic")
 	rec("http-basic")
 	rec("http-basic")
